@@ -307,6 +307,24 @@ def _run(V, work, tier):
                 n2 = len((w.get("trees") or [{}])[0].get("c") or []) if w["ok"] else -1
                 V.add(None, "a text longer than the scanner's window reads differently through %s: %d elements instead of %d (%d leading blanks)" % (k, n2, x["n"], len(x["text"]) - len(x["text"].lstrip())),
                       {"reader": k, "n": x["n"], "got": n2})
+    # ---- ONE token longer than the window (a symbol, a keyword, a run of digits, a float's digits, a string): through the
+    # readers over an io.Reader it reads as the string readers read it, or is refused - never as two tokens
+    ltok = []
+    for n in (W - 1, W, W + 1, W + 900, 2 * W + 5):
+        for kind, tk in (("symbol", "a" * n), ("keyword", ":" + "k" * n), ("digits", "1" * n), ("float", "1." + "5" * n), ("string", '"' + "s" * n + '"'), ("qualified", "pkg:" + "n" * n)):
+            ltok.append({"id": len(ltok), "text": "(x " + tk + " y)", "kind": kind, "n": n})
+    lt = {r["id"]: r for r in driver_json(binary, ["reader"], [{"id": x["id"], "text": x["text"]} for x in ltok], timeout=3300)}
+    for x in ltok:
+        r = lt[x["id"]]
+        ref = r["strict"]
+        for k in ("strict_io", "fmt_io"):
+            w = r[k]
+            if w["ok"] and (not ref["ok"] or [rnode(y) for y in w["trees"]] != [rnode(y) for y in ref["trees"]]):
+                n2 = len((w.get("trees") or [{}])[0].get("c") or [])
+                V.add(None, "a %s of %d characters reads as %d elements through %s (the tail of an over-long token taken for another token)" % (x["kind"], x["n"], n2 - 2, k), {"kind": x["kind"], "n": x["n"], "reader": k})
+            elif not w["ok"] and ref["ok"]:
+                V.add("long-token-rejected", "a %s of %d characters is refused by %s and accepted by the string readers" % (x["kind"], x["n"], k), {"kind": x["kind"], "n": x["n"], "reader": k, "msg": str(w.get("msg"))[:120]})
+    V.coverage["long_single_tokens"] = len(ltok)
     V.coverage["long_texts"] = len(bigs)
     V.coverage["long_separator_variants"] = len(longs)
     V.coverage["layout_variants"] = len(lay)
